@@ -28,7 +28,7 @@ TAUF = [0.0, 1e-9, 0.1, 0.25, 0.5, 0.8, 1.0 - 1e-9, 1.0]
 
 @st.composite
 def strategy_(draw, tier):
-    mdl = draw(gen.any_model_st(max_modes=5 if tier == "quick" else 6, beta_lo=0.1, beta_hi=1000.0))
+    mdl = draw(gen.any_model_st(max_modes=5 if tier == "quick" else 6, beta_lo=0.1, beta_hi=1000.0, wide=True))
     N = M.n_modes(mdl["sites"])
     ix = st.integers(0, N - 1)
     quad = st.one_of(st.tuples(ix, ix).map(lambda t: (t[0], t[0], t[1], t[1])),      # n_a n_c
@@ -76,6 +76,9 @@ def execute(case, ctx):
         if a is None or "exc" in a:
             return fail("%s threw: %s" % (run.sc.lines[ln - 1][:100], a and a.get("exc")), "exc:susc")
     nontrivial = False
+    # a term (w_n - w_m) / (E_m - E_n) between two eigenspaces a distance d apart is evaluated in double precision with an absolute
+    # error of the order eps / d (cancellation in the numerator); d >= 1e-6 here, and d is of order one except for the wide-scale family
+    gap_term = 4e-16 * ref.D / ref.min_gap
     for k, (a, b, c, d) in enumerate(case["comps"]):
         A = ref.Q(a, b); B = ref.Q(c, d)
         U = run.q(("u", k))
@@ -83,20 +86,20 @@ def execute(case, ctx):
         nz = False
         for n, v in zip(ns, un):
             r = ref.chiAB(A, B, n)
-            bound = ref.chi_drop_bound(A, B, n) + 1e-10 * (1 + abs(r))
+            bound = ref.chi_drop_bound(A, B, n) + 1e-10 * (1 + abs(r)) + gap_term + ref.chi_merge_term(A, B, 2j * n * math.pi / beta, static=(n == 0))
             if not abs(v - r) <= bound:
                 return fail("chi_{%d%d,%d%d}(n=%d) = %r, reference %r (|diff| %.3e > bound %.3e)" % (a, b, c, d, n, v, r, abs(v - r), bound), "mismatch-freq")
             if abs(r) > 1e-7:
                 nz = True
         for z, v in zip(zs, [cx(v) for v in U["z"]]):
             r = ref.chiAB_z(A, B, z)
-            bound = ref.chi_drop_bound(A, B, 0, z=z) + 1e-10 * (1 + abs(r))
+            bound = ref.chi_drop_bound(A, B, 0, z=z) + 1e-10 * (1 + abs(r)) + gap_term + ref.chi_merge_term(A, B, z)
             if not abs(v - r) <= bound:
                 return fail("chi_{%d%d,%d%d}(z=%r) = %r, reference %r (|diff| %.3e > bound %.3e)" % (a, b, c, d, z, v, r, abs(v - r), bound), "mismatch-z")
         tb = ref.chi_tau_drop_bound(A, B)
         for tau, v in zip(taus, ut):
             r = ref.chiAB_tau(A, B, tau)
-            if not abs(v - r) <= tb + 1e-10 * (1 + abs(r)):
+            if not abs(v - r) <= tb + 1e-10 * (1 + abs(r)) + gap_term + ref.chi_tau_merge_term(A, B, tau):
                 return fail("chi_{%d%d,%d%d}(tau=%r) = %r, reference %r (bound %.3e)" % (a, b, c, d, tau, v, r, tb), "mismatch-tau")
         if sub:
             S_ = run.q(("s", k))
